@@ -1436,7 +1436,11 @@ class Template:
             keys = ctx.globals_keys - self.globals.keys()
 
             if keys:
-                return self.make_module({k: ctx.parent[k] for k in keys})
+                # a shared context (include / import "with context") does not
+                # hold the globals of its own template in ``parent``
+                return self.make_module(
+                    {k: ctx.parent[k] for k in keys if k in ctx.parent}
+                )
 
         if self._module is None:
             self._module = self.make_module()
@@ -1450,7 +1454,9 @@ class Template:
             keys = ctx.globals_keys - self.globals.keys()
 
             if keys:
-                return await self.make_module_async({k: ctx.parent[k] for k in keys})
+                return await self.make_module_async(
+                    {k: ctx.parent[k] for k in keys if k in ctx.parent}
+                )
 
         if self._module is None:
             self._module = await self.make_module_async()
